@@ -252,6 +252,24 @@ func mutationsOf(bi int, base []byte, tier string, r *RNG) []mutation {
 		ms = append(ms, mutation{Base: bi, Kind: "set", Sets: []setSpec{{88, tot}, {80, tot}, {104, sz}, {112, le(int64(doff) + n*585)}, {120, le(0)}},
 			Desc: fmt.Sprintf("header of an empty image with %d descriptors (free = total, consistent size and data offset)", n)})
 	}
+	// counts whose product with the descriptor size wraps around to a plausible table size:
+	// T = S * 585^-1 (mod 2^64), for table sizes S that really are present in the file
+	inv585 := uint64(1)
+	for k := 0; k < 6; k++ { // Newton iteration for the inverse of 585 modulo 2^64
+		inv585 *= 2 - 585*inv585
+	}
+	dsz := int64(binary.LittleEndian.Uint64(base[104:]))
+	for _, sz := range []int64{dsz + 1, dsz + 2, dsz - 1, 585 + 1, flen - int64(doff), 2} {
+		if sz <= 0 {
+			continue
+		}
+		t := int64(uint64(sz) * inv585)
+		if t <= 0 {
+			continue
+		}
+		ms = append(ms, mutation{Base: bi, Kind: "set", Sets: []setSpec{{88, le(t)}, {104, le(sz)}},
+			Desc: fmt.Sprintf("header DescriptorsSize = %d, DescriptorsTotal = %d (their product wraps to the size)", sz, t)})
+	}
 	// … and descriptors likewise: a size with its padded size, at an offset inside the data section
 	for _, s := range slots {
 		o := doff + s*585
